@@ -12,7 +12,7 @@ std::unique_ptr<NodeResult> PointerDefineNode::evaluate(PSC::Context &ctx) {
     if (pointerType == PSC::DataType::NONE)
         throw PSC::TypeNotDefinedError(token, ctx, type.value);
 
-    if (ctx.isIdentifierType(name, false))
+    if (ctx.isIdentifierType(name, true)) // a type name visible here (also a global one) cannot be defined again: two definitions of one name would be taken for one type
         throw PSC::RedefinitionError(token, ctx, name.value);
 
     PSC::PointerTypeDefinition definition(name.value, pointerType);
